@@ -469,6 +469,27 @@ def check_teardown(P, ctx):
     ctx.floor(rule, 4)
 
 
+def check_registered_before_use(P, ctx):
+    """a managed object is registered with the collector before any user code (constructor, assign) runs on it, so
+    that an exception raised there cannot leave it unregistered (never finalised, not even at teardown)"""
+    rule = 'C06.registered-before-use'
+    want = {'new_with': ('construct_with', 'alloc'), 'new_root_with': ('construct_with', 'alloc_root'), 'new_raw_with': ('construct_with', 'alloc_raw'), 'copy': ('assign', 'alloc')}
+    for fname, (user, allocator) in want.items():
+        fn = P.fn(fname)
+        g = P.cfg(fn)
+        ctx.fn(fn)
+        cs = [(n, c) for n in g.live() if n['expr'] is not None for c in ir.calls(n['expr']) if ir.callee_name(c) == user]
+        ok = len(cs) == 1
+        if ok:
+            a0 = ir.top_nocast(cs[0][1][2][0])
+            ok = a0[0] == 'call' and ir.callee_name(a0) == allocator
+            # no separate registration afterwards (that would mean the object was unregistered while user code ran)
+            late = [c for c, _ in ir.all_calls(fn['body']) if ir.callee_name(c) == 'set' and c[2] and ir.top_nocast(c[2][0])[0] == 'call' and ir.callee_name(ir.top_nocast(c[2][0])) == 'current']
+            ok = ok and not late
+        ctx.check(ok, rule, fname, site(fn), '%s hands the result of %s() straight to %s: the object is already registered when its constructor / assign can raise' % (fname, allocator, user))
+    ctx.floor(rule, 4)
+
+
 def check_box(P, ctx):
     rule = 'C06.box'
     fn = P.fn(P.slot('Box', 'New', 'destruct'))
@@ -510,6 +531,11 @@ def run(ctx, load):
     check_sweep(P, ctx)
     check_teardown(P, ctx)
     check_box(P, ctx)
+    check_registered_before_use(P, ctx)
+    # a stale mark makes the teardown sweep (which does not mark) skip the object: marks must be cleared after every sweep
+    from .rules_c01 import check_marks_cleared
+    check_marks_cleared(P, ctx, 'C06.teardown-sees-unmarked')
+    ctx.floor('C06.teardown-sees-unmarked', 2)
     if ctx.tier == 'thorough':
         for cfg in ('ngc', 'ndebug'):
             Pc = load(UNITS, cfg, [WITNESS[1]])
